@@ -15,7 +15,7 @@ LEVEL = "exploration"
 RULE = ("Slice/Reverse/Chain/CountFrom/RunningChunkBy against Python list "
         "slicing, reversed, itertools and sliding windows.")
 ASSUMPTIONS = [
-    "flows are finite lists of distinct ints and lists containing None / false values; Slice objects are built fresh for every run",
+    "flows are finite lists of distinct ints and lists containing None / false values; run is also repeated on the same Slice object (fill_into is single-use by design)",
     "integer-valued float steps, Slice() without arguments and a list passed directly to a negative Slice.run are left out (not promised)",
 ]
 
@@ -70,6 +70,15 @@ def judge_run(case):
         raise Violation("slice-in-sequence-differs-from-list-slicing",
                         "Sequence(Slice(%r,%r,%r)).run(list %d) = %s, expected %s" % (
                             start, stop, step, n, short(got2), short(exp)))
+    # the same element run again (a sequence inside RunIf or a Split branch is run once per value / block)
+    sl = _mk(start, stop, step, form)
+    for xs2 in (xs, xs[:max(0, n - 3)], xs + xs[:2], xs[:1]):
+        exp2 = xs2[start:stop:step]
+        got3 = list(sl.run(iter(list(xs2))))
+        if list(map(_typed, got3)) != list(map(_typed, exp2)):
+            raise Violation("slice-run-again-differs-from-list-slicing",
+                            "the same Slice(%r,%r,%r) run again on a flow of %d values gives %s, expected %s" % (
+                                start, stop, step, len(xs2), short(got3), short(exp2)))
     neg = (start is not None and start < 0) or (stop is not None and stop < 0)
     m = max(abs(start or 0), abs(stop or 0))
     return {"nontrivial": neg and n > 0,
@@ -253,6 +262,15 @@ def judge_misc(case):
         exp = list(reversed(list(xs)))
         if list(map(_typed, got)) != list(map(_typed, exp)):
             raise Violation("reverse-differs", "%s -> %s" % (xs, got))
+        # a flow given as a list is not consumed, and the element can be run again
+        mine = list(xs)
+        rv = Reverse()
+        g1 = list(rv.run(mine))
+        if mine != list(xs):
+            raise Violation("reverse-changes-the-list-it-is-given", "%s became %s" % (xs, mine))
+        g2 = list(rv.run(iter(mine)))
+        if list(map(_typed, g1)) != list(map(_typed, exp)) or list(map(_typed, g2)) != list(map(_typed, exp)):
+            raise Violation("reverse-differs", "%s -> %s then %s" % (xs, g1, g2))
         return {"nontrivial": len(xs) > 1, "classes": ["reverse"]}
     if k == "chain":
         its = case["its"]
@@ -273,6 +291,16 @@ def judge_misc(case):
         got2 = list(lena.core.Source(CountFrom(start, step), Slice(take))())
         if got2 != exp:
             raise Violation("countfrom-source-differs", "%s" % (case,))
+        # every call counts from the start again, also while an earlier generator is still alive
+        cf = CountFrom(start, step)
+        g1 = cf()
+        first = list(itertools.islice(g1, take // 2 + 1))
+        g2 = cf()
+        again = list(itertools.islice(g2, take))
+        rest = list(itertools.islice(g1, 2))
+        full = list(itertools.islice(itertools.count(start, step), take // 2 + 3))
+        if again != exp or first + rest != full:
+            raise Violation("countfrom-calls-share-state", "%s: second call gives %s, the first continued with %s" % (case, again, rest))
         return {"nontrivial": take > 1, "classes": ["countfrom"]}
     raise AssertionError(k)
 
